@@ -49,7 +49,7 @@ func (self *BinaryConv) doNative(ctx context.Context, src []byte, desc *thrift.T
 	// NOTICE: the native scanners look at the bytes behind a number token and compare the literals true/false/null
 	// as a 4-byte word before they check the length. A document that ends in one of those (a root-level scalar, or
 	// a truncated document) gets readable room behind its end
-	if tailNeedsRoom(src) {
+	if tailNeedsRoom(src) || (self.opts.EnableValueMapping && !endsClosed(src)) {
 		tmp := make([]byte, len(src), len(src)+8)
 		copy(tmp, src)
 		src = tmp
@@ -91,6 +91,22 @@ func tailNeedsRoom(src []byte) bool {
 		case 't', 'f', 'n':
 			return true
 		}
+	}
+	return false
+}
+
+// endsClosed tells if the last significant byte of the document closes an object or an array. The inlined value
+// mapping looks at the bytes of the member's value before it checks the length, which leaves the input when a
+// (truncated) document ends in front of or inside such a value
+func endsClosed(src []byte) bool {
+	for i := len(src) - 1; i >= 0; i-- {
+		switch src[i] {
+		case ' ', '\t', '\r', '\n':
+			continue
+		case '}', ']':
+			return true
+		}
+		return false
 	}
 	return false
 }
